@@ -35,6 +35,10 @@ type config struct {
 	// Block: the loading thread carries an enclosing filter that answers seccomp(2) with ENOSYS; a correct loader
 	// reports an error, nil is only admissible with every thread filtered
 	Block bool `json:"block"`
+	// Preload: the loading thread has loaded the SAME policy before, without thread-sync (flags PreloadFlags); the recorded
+	// load then stacks a second filter with the same program, and with thread-sync it must still reach every thread
+	Preload      bool   `json:"preload"`
+	PreloadFlags uint32 `json:"preload_flags"`
 }
 
 type probeRec struct {
@@ -191,14 +195,20 @@ func main() {
 				os.Exit(3)
 			}
 		}
+		pol := seccomp.Policy{DefaultAction: seccomp.ActionAllow,
+			Syscalls: []seccomp.SyscallGroup{{Action: seccomp.ActionErrno, Names: []string{probe.Syscalls[0].Name}}}}
+		if cfg.Preload {
+			if err := seccomp.LoadFilter(seccomp.Filter{NoNewPrivs: true, Flag: seccomp.FilterFlag(cfg.PreloadFlags &^ 1), Policy: pol}); err != nil {
+				fmt.Fprintln(os.Stderr, "preload failed:", err)
+				os.Exit(3)
+			}
+		}
 		doProbe(ll)
 		seccomp.VerifBeforeInstall = func(prog []syscall.SockFilter, flags seccomp.FilterFlag) {
 			f := uint32(flags)
 			out.HookFlags, out.HookLen = &f, len(prog)
 		}
-		err := seccomp.LoadFilter(seccomp.Filter{NoNewPrivs: true, Flag: seccomp.FilterFlag(cfg.Flags), Policy: seccomp.Policy{
-			DefaultAction: seccomp.ActionAllow,
-			Syscalls:      []seccomp.SyscallGroup{{Action: seccomp.ActionErrno, Names: []string{probe.Syscalls[0].Name}}}}})
+		err := seccomp.LoadFilter(seccomp.Filter{NoNewPrivs: true, Flag: seccomp.FilterFlag(cfg.Flags), Policy: pol})
 		if err != nil {
 			out.Result, out.Error = "err", err.Error()
 		} else {
